@@ -157,6 +157,9 @@ func c13LoadVariant(sc *Scenario, data []byte, script []simio.ReadStep, what str
 			rk := map[int]int{10: rkStatLarger, 11: rkSizeLarger, 12: rkStatPipe, 13: rkLenTrue}[variant]
 			rd := readerOfKind(&simio.SimReader{Data: data, Script: script}, rk, sc.Int("fulllen", len(data)+1+len(data)%977))
 			lr.Prog, lr.Err = bcl.LoadProg(rd, "n", bcl.OptOutput(lr.Out), bcl.OptLogger(lr.Log))
+		case 14: // every option the call accepts, switched on: none of them may act on a load that failed
+			lr.Prog, lr.Err = bcl.LoadProg(&simio.SimReader{Data: data, Script: script}, "n", bcl.OptOutput(lr.Out), bcl.OptLogger(lr.Log),
+				bcl.OptDisasm(true), bcl.OptTrace(true), bcl.OptStats(true))
 		case 8: // no writers at all
 			lr.Prog, lr.Err = bcl.LoadProg(&simio.SimReader{Data: data, Script: script}, "n", bcl.OptOutput(nil), bcl.OptLogger(nil))
 		default:
@@ -220,7 +223,8 @@ func (e *endlessReader) Read(p []byte) (int, error) {
 
 var c13VariantName = []string{"", "Load into a used Prog", "second Load into the same Prog", "reader ends with io.ErrUnexpectedEOF", "reader ends with an I/O error", "file-like reader (Read, Close, Name)",
 	"caller-owned *bufio.Reader: retried, then reset and used again after an unrelated load", "Load on a zero-value Prog", "LoadProg with nil output and log writers", "stream that does not end behind the bytes",
-	"file whose Stat reports the length it had before the write was interrupted", "reader whose Size reports more than it delivers", "pipe (Stat: size 0, not a regular file)", "reader with a truthful Len"}
+	"file whose Stat reports the length it had before the write was interrupted", "reader whose Size reports more than it delivers", "pipe (Stat: size 0, not a regular file)", "reader with a truthful Len",
+	"LoadProg with OptDisasm, OptTrace and OptStats"}
 
 var c13Hung = map[int]bool{}
 
@@ -303,6 +307,9 @@ func (c13) Run(t *testing.T, sc *Scenario) *Outcome {
 			if m%509 == 0 {
 				c13LoadVariant(sc, data[:4], nil, fmt.Sprintf("a header whose magic is %04X", m), o, "magic", 9)
 			}
+			if m%251 == 0 {
+				c13LoadVariant(sc, data, nil, fmt.Sprintf("a dump whose magic is %04X", m), o, "magic", 14)
+			}
 			if len(o.Violations) > 0 {
 				break
 			}
@@ -321,6 +328,9 @@ func (c13) Run(t *testing.T, sc *Scenario) *Outcome {
 			c13Load(sc, data, nil, fmt.Sprintf("a dump declaring version %d.%d", v>>8, v&0xff), o, "version")
 			if v%509 == 0 {
 				c13LoadVariant(sc, data[:4], nil, fmt.Sprintf("a header declaring version %d.%d", v>>8, v&0xff), o, "version", 9)
+			}
+			if v%251 == 0 {
+				c13LoadVariant(sc, data, nil, fmt.Sprintf("a dump declaring version %d.%d", v>>8, v&0xff), o, "version", 14)
 			}
 			if len(o.Violations) > 0 {
 				break
@@ -368,7 +378,7 @@ func (c13) Run(t *testing.T, sc *Scenario) *Outcome {
 			// the options LoadProg takes are part of the call: the listing must not be attempted on a failed load
 			c13LoadOpt(sc, torn, script, what+" (seeded partition, zero reads, data+EOF)", o, "prefix", k%2 == 1)
 			if k%3 == 0 || k > len(full)-40 {
-				v := 1 + (k/3)%12
+				v := 1 + (k/3)%13
 				if v >= 9 {
 					v++ // 9 (the stream that does not end) is tried on headers only
 					sc.SetInt("fulllen", len(full))
